@@ -96,3 +96,14 @@ Theorem C07_source_calc_phase_drift :
     Gen.Pure.gen_calc_phase_drift (dr_rate d) (dr_ti d) tf = calc_phase_drift d tf.
 Proof. exact PureEq.calc_phase_drift_eq. Qed.
 Print Assumptions C07_source_calc_phase_drift.
+
+Theorem C07_source_phase_format :
+  forall phi : float, Gen.Pure.gen_phase_format phi = f_mod2pi phi.
+Proof. exact PureEq.phase_format_eq. Qed.
+Print Assumptions C07_source_phase_format.
+
+Theorem C07_source_update_last_used :
+  forall (r : qref) (t : Z),
+    r_used (update_last_used r t) = Gen.Pure.gen_update_last_used (r_used r) t.
+Proof. exact PureEq.update_last_used_eq. Qed.
+Print Assumptions C07_source_update_last_used.
